@@ -1,48 +1,3 @@
-//! Probe library for property C19: functions with the documented FFI signature.
-use bytecode::BytecodePrimitive as P;
-use bytecode::FFIReturnValue;
-use bytecode::raise_error;
-
-fn render(p: &P) -> String {
-    match p {
-        P::Int(x) => format!("int:{x}"),
-        P::BigInt(x) => format!("bigint:{x}"),
-        P::Float(x) => format!("float:{x:?}"),
-        P::Byte(x) => format!("byte:{x}"),
-        P::Bool(x) => format!("bool:{x}"),
-        P::Str(x) => format!("str:{x:?}"),
-        _ => "other".to_string(),
-    }
-}
-
-/// Returns a string rendering of the kinds and values received, in order.
-#[no_mangle]
-pub fn echo(args: &[P]) -> FFIReturnValue {
-    let parts: Vec<String> = args.iter().map(render).collect();
-    FFIReturnValue::Value(P::Str(format!("[{}]", parts.join(";"))))
-}
-
-/// Returns its last argument unchanged (kind-preserving result push).
-#[no_mangle]
-pub fn last(args: &[P]) -> FFIReturnValue {
-    match args.last() {
-        Some(x) => FFIReturnValue::Value(x.clone()),
-        None => FFIReturnValue::Value(P::Int(-1)),
-    }
-}
-
-/// Returns no value.
-#[no_mangle]
-pub fn nothing(args: &[P]) -> FFIReturnValue {
-    let _ = args;
-    FFIReturnValue::NoValue
-}
-
-/// Raises an error carrying a message that names the argument count.
-#[no_mangle]
-pub fn fail(args: &[P]) -> FFIReturnValue {
-    if args.len() > 100 {
-        return FFIReturnValue::NoValue;
-    }
-    raise_error!("probe-raised-error")
-}
+//! Probe library A for property C19.
+const TAG: &str = "";
+include!("body.rs");
